@@ -397,10 +397,9 @@ def dmapkey_trace(ctx, rounds):
         return None
     summ = json.load(open(os.path.join(out, "dk.summary.json")))
     acc_total = 0
-    import concurrent.futures as cf
-    with cf.ThreadPoolExecutor(max_workers=3) as ex:
-        results = list(ex.map(lambda nb: vlib.validate_histories(ctx, "DMapKeyTrace", "DMapKeyTrace.cfg", os.path.join(out, "dk-nb%d.ndjson" % nb),
-                                                                 consts={"NB": nb}, name="dk%d" % nb, chunk_lines=100), (0, 1, 2)))
+    # (small chunks: the trace specification keeps one program counter per recorded goroutine of the whole chunk)
+    results = [vlib.validate_histories(ctx, "DMapKeyTrace", "DMapKeyTrace.cfg", os.path.join(out, "dk-nb%d.ndjson" % nb),
+                                       consts={"NB": nb}, name="dk%d" % nb, chunk_lines=100) for nb in (0, 1, 2)]
     for nb, (acc, fails) in zip((0, 1, 2), results):
         acc_total += acc
         for seq_lines, line, msg in fails:
@@ -433,7 +432,7 @@ def c04(ctx):
             "distinct = distinct (key kind, operation, reply, path) sequences; every sequence changes the stored entry"
             + "; entries about as large as a storage table; rounds of 3-5 concurrent mutating operations (and lock hand-overs to a waiter) on one key with the copies compared once all have returned; janitor and compaction timers run in the small-table cluster")
     design = [("DMapKeyMC", "DMapKey_quick.cfg" if quick else "DMapKey_thorough.cfg", {"timeout": 1500})]
-    dk = dmapkey_trace(ctx, 6 if quick else 150)
+    dk = dmapkey_trace(ctx, 6 if quick else 40)
     rule += ("; plus DMapKey.tla's own actions replayed on the recorded arrivals at the trace points of the owner's write and delete paths (3-6 clients on 3 keys, "
              "Put / NX / XX / Delete, delays inside the critical sections, R in 1..3): lock exclusive, order of the steps, refusals as the model computes them, "
              "copies equal at rest, final copies as the members hold them")
